@@ -175,18 +175,22 @@ func (c *compiler) evalUserFunction(node *userFunction, args []ast.Expression) (
 		return nil, fmt.Errorf("too few arguments (%d for %d)", len(args), len(node.Parameters))
 	}
 
+	// the arguments are evaluated in the caller's scope, before any parameter is bound
+	vals := make([]interface{}, len(node.Parameters))
+	for i := range node.Parameters {
+		v, err := c.evalExpression(args[i])
+		if err != nil {
+			return nil, err
+		}
+		vals[i] = v
+	}
+
 	octx := c.ctx
 	defer func() { c.ctx = octx }()
 
 	c.ctx = c.ctx.New()
 	for i, p := range node.Parameters {
-		a := args[i]
-		v, err := c.evalExpression(a)
-		if err != nil {
-			return nil, err
-		}
-
-		c.ctx.Set(p.Value, v)
+		c.ctx.Set(p.Value, vals[i])
 	}
 
 	return c.evalBlockStatement(node.Block)
